@@ -439,6 +439,16 @@ func checkCall(c *harness.Ctx, w *World, call *Call, world string) {
 		}
 		return
 	}
+	if call.liedHeader && len(call.Exchanges) > 0 && len(call.Inv) == 0 && len(call.Filt) == 0 {
+		// C05 leaves "a method header that contradicts the HTTP verb" unspecified: on a simple resource the verb
+		// decides (checked below when the request is served), but a server may also refuse the contradiction
+		// outright - with a 4xx and without touching resource code or filters. What it must never do is follow
+		// the header to another method (misrouted) or fail with a 5xx.
+		if st := call.Exchanges[0].Status; st >= 400 && st < 500 {
+			c.Probe("contradicting-header-refused")
+			return
+		}
+	}
 	if call.wantDupReject {
 		if call.Err == nil || len(call.Exchanges) > 0 {
 			c.Fail("C16", "duplicate-not-refused", "duplicate-not-refused:"+call.Method, "%s: duplicate keys (under key equality) must be rejected before any request is sent; err=%v exchanges=%d", where, call.Err, len(call.Exchanges))
